@@ -26,13 +26,8 @@ BuildOk(c) ==
        /\ c.at = c.group                                     \* the address type bit matches the destination
        /\ c.lenfield = c.npdu /\ c.same = 1
   ELSE c.out = "refused"                                     \* longer APDUs and hop counts outside 0..7 are rejected
-\* reserved bits of the low APCI octet, by decoded service (KNX 03/03/07 Application Layer: 4-bit APCI codes whose six low bits carry
-\* nothing because the data follows in further octets; A_Restart: bit 0 selects the restart type, bits 1..5 are reserved)
-ReservedApciBits(svc, long) ==
-  CASE svc \in {"GroupValueRead", "IndividualAddressRead", "IndividualAddressResponse", "IndividualAddressWrite"} -> 0..5
-    [] svc \in {"GroupValueWrite", "GroupValueResponse"} /\ long = 1 -> 0..5
-    [] svc = "Restart" -> 1..5
-    [] OTHER -> {}
+\* reserved application-layer bits: the table of Apci.tla (C05), positions relative to the APDU (octet 0 = TPCI / APCI high octet)
+A == INSTANCE Apci
 \* ---- C13: re-serialising a received frame.  diff = positions (octet, bit 7..0) where the octets differ;
 \*      apci1 = octet number of the low APCI octet; svc = decoded service, long = 1: further data octets follow
 ReserialiseOk(c) ==
@@ -42,5 +37,5 @@ ReserialiseOk(c) ==
      /\ \A i \in 1..Len(c.diff) :
            LET o == c.diff[i][1]  p == c.diff[i][2] IN
            \/ (o = c.ctrl1 /\ p \in {7, 6})                  \* the derived frame type bit and the reserved bit of control field 1
-           \/ (o = c.apci1 /\ p \in ReservedApciBits(c.svc, c.long))   \* reserved application bits
+           \/ (o >= c.apci1 - 1 /\ <<o - (c.apci1 - 1), p>> \in A!Reserved(c.svc, c.npdu + 1))   \* reserved application bits
 =============================================================================
